@@ -38,7 +38,7 @@ KEYS = [None, 'original', 'alphanumeric', 'canonical']
 PURE_OPS = ['format', 'interpret', 'decode', 'encode', 'configure', 'reconfigure', 'reify_edges', 'dereify_edges', 'reify_attributes',
             'indicate_branches', 'canonicalize_roles', 'queries', 'or', 'sub', 'errors', 'diagnostics', 'alignments', 'format_triples',
             'eq']
-INPLACE_OPS = ['inplace-rearrange', 'inplace-reset', 'inplace-ior', 'inplace-isub']
+INPLACE_OPS = ['inplace-rearrange', 'inplace-reset', 'inplace-ior', 'inplace-isub', 'inplace-canon-rearrange', 'inplace-parse-result']
 TRANSFORMS = {'reify_edges', 'dereify_edges', 'reify_attributes', 'indicate_branches', 'canonicalize_roles', 'reconfigure'}
 
 
@@ -143,6 +143,27 @@ def run_op(op, pool, m):
         r.reset_variables(op[2])
         r.metadata = dict(r.metadata)
         return _fp(r)
+    if k == 'inplace-canon-rearrange':
+        r = transform.canonicalize_roles(t, m)
+        key = None if op[2] is None else getattr(m, op[2] + '_order')
+        layout.rearrange(r, key=key, attributes_first=bool(op[3]))
+        r.reset_variables('q{i}')
+        return _fp(r)
+    if k == 'inplace-parse-result':
+        text = penman.format(t, indent=None)
+        r = penman.parse(text)
+        layout.rearrange(r, key=m.canonical_order, attributes_first=True)
+        r.reset_variables('q{i}')
+        r.metadata['__scribble'] = 'x'
+        stack = [r.node]
+        while stack:
+            nd = stack.pop()
+            for rr, xx in nd[1]:
+                if not interp.is_atom(xx):
+                    stack.append(xx)
+            nd[1].append((':scribble', 'z'))
+        g2 = penman.decode(text, model=m)
+        return [_fp(r), _fp(g2)]
     if k in ('inplace-ior', 'inplace-isub'):
         h = pool[op[2] % n]['graph']
         r = [transform.reify_attributes, lambda x: transform.indicate_branches(x, m), lambda x: transform.dereify_edges(x, m),
@@ -292,7 +313,7 @@ def _op(draw):
         return [k, i, draw(st.integers(0, 2))]
     if k == 'format_triples':
         return [k, i, draw(st.booleans())]
-    if k == 'inplace-rearrange':
+    if k in ('inplace-rearrange', 'inplace-canon-rearrange'):
         return [k, i, draw(st.sampled_from(KEYS)), draw(st.booleans())]
     if k == 'inplace-reset':
         return [k, i, draw(st.sampled_from(['{prefix}{j}', 'v{i}']))]
@@ -308,7 +329,8 @@ C17_ROLES = [':ARG0', ':ARG1', ':mod', ':domain', ':op1', ':op2', ':polarity', '
 def _pool_spec(draw):
     spec = {'name': draw(st.sampled_from(['amr', 'amr', 'default', 'mini']))}
     concepts = trees.CONCEPTS + ['have-mod-91', 'own-01', 'be-located-at-91']
-    ts = [draw(trees.wf_trees(spec, max_nodes=5, concepts=concepts, emptyconcept=False)) for _ in range(3)]
+    big = draw(st.integers(0, 5)) == 0
+    ts = [draw(trees.wf_trees(spec, max_nodes=22 if (big and i == 0) else 5, concepts=concepts, emptyconcept=False, wide=8 if (big and i == 0) else 3)) for i in range(3)]
     table = build_table(spec)
     if table['reifications']:
         ts = [trees.reify_in_tree(draw, t, table, prob=(1, 3)) if draw(st.booleans()) else t for t in ts]
